@@ -85,3 +85,38 @@ Theorem C10_other_shards_acknowledge_unhandled : forall c inst cid i n idx e s,
   after_lag c inst (EConn cid i n) idx e s = (p_ack (EConn cid i n) idx e ;;; ret PRun) s.
 Proof. intros c inst cid i n idx e s H. apply after_lag_filtered. exact H. Qed.
 Print Assumptions C10_other_shards_acknowledge_unhandled.
+
+(* ---------- the role names as strings (rolescheduler.go makeRole: ToLower(ReplaceAll(Join(parts, "-"), " ", "_"))) ---------- *)
+From WF Require Import model.Strings proofs.RoleNames.
+
+(* for ANY workflow name (any bytes): two units other than connector consumers that get the same role string are the same unit —
+   outbox, delete, paused-retry, every (status, shard, count) of the steps, poller and inserter of every timeout status, the hook
+   of every run state; statuses enter as decimal numerals only (model/Launch.v role_of has no display string to use) *)
+Theorem C10_roles_distinct : forall wf u u',
+  is_conn u = false -> is_conn u' = false -> role_of wf u = role_of wf u' -> u = u'.
+Proof. exact nonconn_roles_distinct. Qed.
+Print Assumptions C10_roles_distinct.
+
+(* connector consumers (names without '-' once normalised): the role determines the normalised connector name, the shard and
+   the shard count, and is never the role of another kind of unit *)
+Theorem C10_connector_roles_distinct : forall wf c i n c' i' n',
+  dashfree (nrm c) = true -> dashfree (nrm c') = true ->
+  role_of wf (UConn c i n) = role_of wf (UConn c' i' n') -> nrm c = nrm c' /\ i = i' /\ n = n'.
+Proof. exact conn_roles_distinct. Qed.
+Print Assumptions C10_connector_roles_distinct.
+
+Theorem C10_connector_role_not_other : forall wf c i n u,
+  dashfree (nrm c) = true -> dashfree (nrm wf) = true -> is_conn u = false -> role_of wf (UConn c i n) <> role_of wf u.
+Proof. exact conn_role_not_other. Qed.
+Print Assumptions C10_connector_role_not_other.
+
+(* hence every launched process has its own role: the launch list has no repetition (C10_launch_once) and neither has the list
+   of role strings, for workflow / connector names without '-' and connector names that stay distinct when normalised *)
+Theorem C10_launch_roles_nodup : forall cfg,
+  NoDup (launch cfg) ->
+  dashfree (nrm (cf_name cfg)) = true ->
+  (forall c i n, In (UConn c i n) (launch cfg) -> dashfree (nrm c) = true) ->
+  (forall c i n c' i' n', In (UConn c i n) (launch cfg) -> In (UConn c' i' n') (launch cfg) -> nrm c = nrm c' -> c = c') ->
+  NoDup (launch_roles cfg).
+Proof. exact launch_roles_nodup. Qed.
+Print Assumptions C10_launch_roles_nodup.
